@@ -323,7 +323,12 @@ package blob
 //@ func nameToPath
 //@   modifies nothing
 //@   assert-at return #1 : n.IsFullyQualified()     -- (ordinal = engine traversal order: the return at line 535)
-//@   ensures !names.Parse(name).IsFullyQualified() ==> result.0 == ""
+//@   assert-at return #2 : !n.IsFullyQualified() && result.0 == ""
+// C13 (store confinement): the path of a name is the join of exactly its four validated parts
+// (host, namespace, model, tag) - never something derived from the printed form of the name, in
+// which the separators allowed INSIDE a part (':' and '.' in a host) would become path components
+// (added after seeded change C13-seed3; needs the types/model contract file for fpjoin4)
+//@   assert-at return #1 : result.0 == fpjoin4(n.Host(), n.Namespace(), n.Model(), n.Tag())
 
 // Chunker.Put: the chunk is written through a checkWriter gated by the chunk's digest and
 // the chunk's size, at the chunk's offset, and at most that many bytes are copied.
